@@ -26,6 +26,13 @@ var NamedActions = []uint32{0x00000000, 0x80000000, 0x00030000, 0x00050000, 0x7f
 var Ops = []string{"Equal", "NotEqual", "GreaterThan", "LessThan", "GreaterOrEqual", "LessOrEqual", "BitsSet", "BitsNotSet"}
 var TableArches = []string{"x86_64", "i386", "arm", "aarch64"}
 
+func boolU(b bool) uint64 {
+	if b {
+		return 1
+	}
+	return 0
+}
+
 func pick(r *rand.Rand, xs []string) string { return xs[r.Intn(len(xs))] }
 
 // Operand draws a 64-bit operand from classes that matter for the hi/lo split.
@@ -71,9 +78,54 @@ func anyAction(r *rand.Rand) uint32 {
 
 func genConds(r *rand.Rand, max int) []Cond {
 	n := 1 + r.Intn(max)
+	if max > 8 && r.Intn(4) == 0 {
+		// very long single lists: beyond one and beyond two bridge distances
+		n = []int{63, 64, 65, 66, 100, 128, 129, 130, 200, 300}[r.Intn(10)]
+	}
 	cs := make([]Cond, n)
 	for i := range cs {
 		cs[i] = Cond{Arg: uint32(r.Intn(6)), Op: Ops[r.Intn(len(Ops))], Val: Operand(r)}
+	}
+	if n > 8 && r.Intn(4) != 0 {
+		// keep most long lists jointly satisfiable (an event that passes every condition exercises
+		// every jump of the list): one fixed value per argument, and each condition is one that this
+		// value passes — with operands that are still interesting
+		var want [6]uint64
+		for a := range want {
+			want[a] = Operand(r)
+		}
+		for i := range cs {
+			v := want[cs[i].Arg]
+			switch r.Intn(8) {
+			case 0:
+				cs[i].Op, cs[i].Val = "Equal", v
+			case 1:
+				cs[i].Op, cs[i].Val = "GreaterOrEqual", v-uint64(r.Intn(3))*boolU(v > 2)
+			case 2:
+				cs[i].Op, cs[i].Val = "LessOrEqual", v+uint64(r.Intn(3))*boolU(v < ^uint64(0)-2)
+			case 3:
+				cs[i].Op, cs[i].Val = "NotEqual", v^(1<<uint(r.Intn(64)))
+			case 4:
+				cs[i].Op, cs[i].Val = "BitsSet", v&Operand(r)
+				if cs[i].Val == 0 { // BitsSet 0 never matches
+					cs[i].Op, cs[i].Val = "BitsNotSet", 0
+				}
+			case 5:
+				cs[i].Op, cs[i].Val = "BitsNotSet", ^v&Operand(r)
+			case 6:
+				if v > 0 {
+					cs[i].Op, cs[i].Val = "GreaterThan", v-1
+				} else {
+					cs[i].Op, cs[i].Val = "GreaterOrEqual", 0
+				}
+			default:
+				if v < ^uint64(0) {
+					cs[i].Op, cs[i].Val = "LessThan", v+1
+				} else {
+					cs[i].Op, cs[i].Val = "LessOrEqual", v
+				}
+			}
+		}
 	}
 	// repeated arguments are interesting (several conditions on one argument)
 	if n > 1 && r.Intn(3) == 0 {
